@@ -372,15 +372,7 @@ class Unit:
         raw = src.text[it.start:it.end]
         t = self.clean_item_text(raw, kw)
         t = re.sub(r'\bfn from\(\s*_\s*:', 'fn from(_e:', t)
-        first = len(self.lines)
         line0 = line_override if line_override is not None else src.text.count('\n', 0, it.start) + 1
-        if line_override is not None:
-            self.emit(t, ('src', rel, line0))
-            for k in range(len(t.split('\n'))):
-                self.origin[-1 - k] = ('src', rel, line0)
-        else:
-            self.emit_mapped(t, raw, rel, line0)
-        self.fns.append((first + 1, len(self.lines), it.header, it.header, rel, line0))
         hm = re.match(r'impl\s*(<[^>]*>)?\s*From<(.*)>\s+for\s+(.+?)(\s+where\s+.*)?$', it.header)
         if not hm:
             raise Unsupported('fromimpl: cannot parse header ' + it.header)
@@ -402,7 +394,19 @@ class Unit:
             if '=>' in sub:
                 a1, b1 = sub.split('=>', 1)
                 glue = glue.replace(a1, b1)
+        # the spec glue is emitted BEFORE the impl: Verus may check `from` early (when a spec reaches it through
+        # call_ensures) and breaks ties by source order
         self.emit(glue, ('src', rel, line0))
+        for k in range(len(glue.split('\n'))):
+            self.origin[-1 - k] = ('src', rel, line0)
+        first = len(self.lines)
+        if line_override is not None:
+            self.emit(t, ('src', rel, line0))
+            for k in range(len(t.split('\n'))):
+                self.origin[-1 - k] = ('src', rel, line0)
+        else:
+            self.emit_mapped(t, raw, rel, line0)
+        self.fns.append((first + 1, len(self.lines), it.header, it.header, rel, line0))
         self.rw.hit('W0.from_spec_glue')
         self.extracted.append((rel, it.header))
 
